@@ -68,17 +68,17 @@ Definition insert_p_spec (t : ptier) (e : point) (m : insmode) : res ptier :=
   end.
 
 Definition specI (t : itier) (s : stepI) : res itier :=
-  match s with SInsI e m => insert_spec t e m | SDelI e => delete_i_spec t e end.
+  match s with SInsI e m => insert_spec t (strip_i e) m | SDelI e => delete_i_spec t e end.
 Definition specP (t : ptier) (s : stepP) : res ptier :=
-  match s with SInsP e m => insert_p_spec t e m
+  match s with SInsP e m => insert_p_spec t (strip_p e) m
           | SDelP e => match remove_first point_eqb e (pents t) with
                        | Some l => Ok (mkPT (pname t) l (pmin t) (pmax t)) | None => Err PyError end
   end.
 
 Definition C11oracle (c : C11case) : bool :=
   match c with
-  | InsI t e m out => res_eqb itier_eqb (insert_spec t e m) out
-  | InsP t e m out => res_eqb ptier_eqb (insert_p_spec t e m) out
+  | InsI t e m out => res_eqb itier_eqb (insert_spec t (strip_i e) m) out
+  | InsP t e m out => res_eqb ptier_eqb (insert_p_spec t (strip_p e) m) out
   | DelI t e out => res_eqb itier_eqb (delete_i_spec t e) out
   | DelP t e out => res_eqb ptier_eqb (specP t (SDelP e)) out
   | HistI t steps => hist_ok specI itier_eqb t steps
